@@ -335,4 +335,23 @@ CHECKS = {
                    rapid("mutate", "TestMutate", 8000, 320000, qs=16, ts=16, qt=600, tt=5400)],
         "fuzz": {"targets": ["FuzzApplyFresh", "FuzzOptimize", "FuzzSignature", "FuzzOverlay"], "seconds": 240, "workers": 4},
     },
+    "C15": {
+        "title": "Diffing is deterministic and free of data races",
+        "level": "exploration",
+        "technique": "rapid property-based testing: repeated runs under generated schedule perturbation compared byte for byte; the same harness under the Go race detector",
+        "level_text": ("Generated build pairs (incl. files sharing blocks and a 'tie' shape: a new file made of two equally large old files) x "
+                       "compression. Per case 4 runs of WritePatch with GOMAXPROCS in {1,2,3,16}, a source pool whose readers return generated "
+                       "short reads and yield/sleep at generated points, and yielding patch/signature writers; then 3 runs of Optimize with "
+                       "identical parameters. Oracles: byte equality of patch, signature and optimized output across runs; a -race build of the "
+                       "same harness must report nothing (GORACE=halt_on_error so the journalled case is the one that raced)."),
+        "level_note": "goroutine schedules are sampled (GOMAXPROCS, injected yields/sleeps/short reads), not enumerated; a race needing one specific interleaving inside wharf's own goroutines may be missed.",
+        "rule": ("rapid draws (build pair, compression, jitter bytes, optimizer partitions). evaluations = cases, sub_evaluations = diff/optimize "
+                 "runs compared. Non-trivial: a new build with >=2 files of >=3 blocks. Distinct: SHA-1 of the spec."),
+        "assumptions": [],
+        "required_classes": {"quick": ["jitter:on", "optimized:bsdiff-series", "comp:gzip", "comp:brotli"],
+                             "thorough": ["jitter:on", "optimized:bsdiff-series", "comp:gzip", "comp:brotli"]},
+        "replay_race": False,
+        "stages": [rapid("determinism", "TestProp", 320, 8000, qs=16, ts=16, qt=900, tt=5400, schedule_dependent=True, shrinktime="30s"),
+                   rapid("race", "TestProp", 48, 1600, qs=16, ts=16, qt=900, tt=5400, race=True, schedule_dependent=True, shrinktime="10s")],
+    },
 }
